@@ -20,7 +20,7 @@ LEVEL_NOTE = ("Trusted: Coq kernel + vm_compute, extraction, driver.ml, harness,
               "Classical_Prop.classic (certificate theorem); loop theorems axiom-free. Residual: convergence of Newton's iteration in "
               "floating point (numpy.linalg.solve, FFT) is a numerical-analysis statement outside this development.")
 RULE = ("target coefficient vectors of length 1..80 (quick: 1..10, 16, 25, 40, 80), both parities, geometric / flat / random-sign decay, "
-        "1-norm in (0, 0.9]; default crit/maxiter plus (crit, maxiter) in {(1e-12, 1..5), (1e-6, 50), (1e-14, 100)}; distinct by JSON; "
+        "1-norm in (0, 0.9]; coefficient arrays of dtype float64 and (same values) float32 / float16; default crit/maxiter plus (crit, maxiter) in {(1e-12, 1..5), (1e-6, 50), (1e-14, 100)}; distinct by JSON; "
         "non-trivial = at least 2 coefficients")
 TRUSTED = ["Coq 8.16.1 kernel incl. vm_compute", "extraction (ExtrOcamlBasic, ExtrOcamlZBigInt) + driver.ml + zarith, cross-checked in Coq on a slice",
            "harness (impl_runner.py, impl_handlers4.py)", "numpy as executor of the implementation"]
@@ -63,6 +63,18 @@ def run(ctx):
                         crit, mi2 = rng.choice([(1e-6, 50), (1e-14, 100), (1e-3, 7), (1e-12, 2), (1e-13, 3), (1e-12, 1)])
                         cases.append({"fn": "newton", "coef": [hexf(x) for x in coef], "parity": parity, "crit": hexf(crit), "maxiter": mi2,
                                       "setting": "crit", "timeout": 900})
+        # the same targets held in single / half precision arrays (values rounded to float32/float16 first, so every dtype holds them exactly)
+        import struct
+        for k in ([1, 2, 3, 6, 12] if quick else [1, 2, 3, 4, 6, 9, 12, 20, 40]):
+            for parity in (0, 1):
+                for dt in (("float32",) if quick else ("float32", "float16")):
+                    coef = gen_target(rng, k, rng.choice([0.85, 0.5, 0.2]))
+                    if dt == "float16":
+                        coef = [struct.unpack("e", struct.pack("e", x))[0] for x in coef]
+                    else:
+                        coef = [struct.unpack("f", struct.pack("f", x))[0] for x in coef]
+                    cases.append({"fn": "newton", "coef": [hexf(x) for x in coef], "parity": parity, "setting": "default", "dtype": dt,
+                                  "maxiter": 60, "timeout": 900})
     impl = run_impl(cases, timeout=3000)
     lines, keep = [], []
     for c, r in zip(cases, impl):
